@@ -49,6 +49,14 @@ def check_shape(t, shape, kind, maxstop, maxhide, only=None):
                             got = idm.seq(got)
                         t.c["evaluations"] += 1
                         t.obs((shape, kind, start, stopset, hidden, ml, name, got))
+                        if (len(stopset) + len(hidden)) == 1 and ml in (None, 2):
+                            it = cls(nodes[start], filter_=filt, stop=stop, maxlevel=ml)
+                            list(it)
+                            t.c["iterator_reuse_checks"] += 1
+                            if list(it):
+                                t.violation("C06: an exhausted %s iterator yields nodes again" % name,
+                                            {"engine": "E2", "module": MOD, "shape": shape, "kind": kind, "start": start,
+                                             "stop": sorted(stopset), "filtered_out": sorted(hidden), "maxlevel": ml, "iterator": name})
                         if got != exp[name]:
                             t.violation(
                                 "C06: %s under filter_/stop/maxlevel differs from the restricted reference order" % name,
@@ -113,5 +121,5 @@ def run(tier):
         "bounds": bounds,
     }
     return {"tally": t, "coverage": cov,
-            "guards": ("nontrivial", "stop_pruned_inner_node", "filter_hid_inner_node_with_visible_child", "maxlevel_cut"),
+            "guards": ("nontrivial", "stop_pruned_inner_node", "filter_hid_inner_node_with_visible_child", "maxlevel_cut", "iterator_reuse_checks"),
             "assumptions": ["full stop x filter product up to 5 (6 thorough) nodes; beyond that subsets of bounded size"]}
